@@ -1,18 +1,18 @@
-\* export (thorough): sequences of three submissions
+\* export (thorough): sequences of two submissions, every retryable answer
 CONSTANTS
   ShardLists <- MCThreeShards
   Instants = {0, 1, 2}
   Scenes = {"submit"}
   ChainKinds = {"x509"}
   Firsts = {"cert"}
-  Statuses = {200}
+  Statuses = {200, 500}
   FinalClasses = {"valid"}
-  RetryStatuses = {503}
+  RetryStatuses = {408, 503}
   RetryAfterForms = {"zero", "bare"}
   UndecodableBodies = {"notJSON"}
   AfterRetryStatuses = {200}
   MaxAnswers = 3
-  MaxCalls = 3
+  MaxCalls = 2
   MaxMult = 8
   RootAnswers = {}
   CtxMayEnd = FALSE
